@@ -4,7 +4,7 @@
    bit narrows the interval, renc_finish writes the numeral of the lower end, and therefore the
    final output lies in the interval of every intermediate state.  Also: none of the u32/u64
    wrap-arounds written out in the model actually wraps.  Proofs only. *)
-From LzVerif Require Import Base.Bytes Codec.Store Codec.Range Codec.ProbProofs Codec.RangeArith.
+From LzVerif Require Import Base.Bytes Codec.Store Codec.Range Codec.ProbProofs Codec.RangeArithProofs.
 From LzVerif Require Import Codec.LzmaDec Codec.LzmaEnc.
 Ltac Zify.zify_post_hook ::= Z.div_mod_to_equations.
 
